@@ -1,4 +1,4 @@
-import Firefly.Proof.VmmZeroSeq
+import Firefly.Proof.VmmRzf
 import Firefly.Proof.VmmBoot
 import Firefly.Gen.C06
 /-!
@@ -108,6 +108,23 @@ theorem shared_zero_sequence {R : W} {zf : Nat} (addrs : List W) (st : St) (own 
   refine ⟨own', cp, z', fun a ha => ?_, hdist, has⟩
   obtain ⟨c1, c2, _, c4, c5⟩ := hcp a ha
   exact ⟨c1, c2, c4, c5⟩
+
+/-- **reserve_zeroed_frame — arming the guard.**  On a well-formed active address space whose guard is
+not armed yet: either the allocator fails (error returned, guard still not armed), or the first
+allocated frame `f` becomes `ReservedZeroedFrame`, all its words are zero, the guard is armed, the
+address space is unchanged except that the temporary page ends unmapped, and the invariants of
+`zero_never_rw` (`ZInv`, provided no page mapped `f` before) and of `shared_zero_sequence` (`ZSeq`)
+hold. -/
+theorem reserve_zeroed_frame {st : St} {R : W} {own : Own} (g : Good st R own) (hA : st.cr3 &&& hwMask = R)
+    (htf : st.tmpFail = false) (hprot : st.protect = false) {f : W} {rest : List W} (hf : st.free = f :: rest)
+    (hunmapped : ∀ va', UserVA va' → ∀ e, hwEntry st.mem R va' = some e → e &&& hwMask ≠ f <<< 12) :
+    ∃ code st', reserveZeroedFrame st = .ok (code, st') ∧
+      ((code = eAlloc ∧ st'.protect = false) ∨
+       (code = 0 ∧ st'.protect = true ∧ st'.zeroFrame = f ∧
+        ∃ own', ZSeq st' R own' f.toNat ∧ ZInv st' R own' ∧
+          ∀ va', UserVA va' → hwEntry st'.mem R va' =
+            if SamePage va' tempVA then none else hwEntry st.mem R va')) :=
+  rzf_full g hA htf hprot hf hunmapped
 
 /-- **Every other page fault panics.** If the handler returns at all, the walk found a leaf entry
 that is present, read-only and copy-on-write, a frame was available and the temporary mapping was
